@@ -109,6 +109,7 @@ type Sim struct {
 	hbOff       bool
 	hbObj       map[any]VC
 	hbMaps      map[uintptr]*mapState
+	hbVars      map[uintptr]bool // ids in hbMaps that are shared variables, not maps
 	timerVC     VC
 	MapAccesses int
 	MapRaces    int
